@@ -142,7 +142,7 @@ CHECKS = {
     "C20": dict(engine="crosshair", technique=CH,
                 text="TEXT half only: for every string up to the bound over {a, b, space, TAB, LF, NBSP, EM SPACE} CrossHair confirms normalize is idempotent, keeps the "
                      "words and their order and leaves no NBSP, leading/trailing space or run of spaces.",
-                note="Length <= 4 quick / 6 thorough. The XML half is NOT decided: the XSLT stylesheet is interpreted by libxslt (C) - stylesheet mutations are invisible here.",
+                note="Length <= 4 quick / 5 thorough; plus affix variants (symbolic part embedded in long concrete text). The XML half is NOT decided: the XSLT stylesheet is interpreted by libxslt (C) - stylesheet mutations are invisible here.",
                 ref="DESIGN.md 3 C20"),
 }
 
